@@ -205,6 +205,28 @@ fn typed_case(t: &[&str]) -> String {
                 let resp = router.clone().oneshot(req).await.unwrap();
                 return format!("status:{}", resp.status().to_u16());
             }
+            if f[0] == "big" {
+                // big:<VecBin|VecJson>:<len>[:<seed byte>]: a message of <len> deterministic bytes, echoed by the handler
+                let mut g = gamma::gamma_client::GammaClient::new(router.clone());
+                let n: usize = f[2].parse().unwrap();
+                let sd: u64 = f.get(3).and_then(|x| x.parse().ok()).unwrap_or(7);
+                let v: Vec<u8> = (0..n as u64).map(|i| i.wrapping_mul(31).wrapping_add(sd).wrapping_add(i >> 9) as u8).collect();
+                let r = match f[1] {
+                    "VecBin" => g.vec_bin(v.clone()).await,
+                    "VecJson" => g.vec_json(v.clone()).await,
+                    other => panic!("unknown big method {other}"),
+                };
+                return match r {
+                    Ok(resp) => format!(
+                        "ok:{}:{}:{}",
+                        if resp.body() == &v { "same".to_string() } else { format!("diff{}", resp.body().len()) },
+                        resp.status().to_u16(),
+                        fmt_headers(resp.headers())
+                    )
+                    .replace(' ', ""),
+                    Err(st) => format!("err:{}", st.status().to_u16()),
+                };
+            }
             if f[0] == "tiny" {
                 // tiny:<method>[:<hex of a Vec<u8> message>]: messages that encode to (almost) nothing
                 let mut g = gamma::gamma_client::GammaClient::new(router.clone());
